@@ -118,12 +118,24 @@ def run(ctx, rep):
             continue
         an = analyze_fn(F, fn)
         leaves = an.ret_leaves() or []
+        adt_ = F.adts.get(self_ty)
+        if adt_ is not None and len(adt_["variants"]) > 1 and not any(f[0] == "var" and f[1] is T.param(1) for _, st in leaves for f in st.facts):
+            # the result is an expression of the variant (`self == AnyEndian::Little`, `matches!(..)` folded to a comparison of the
+            # discriminant): evaluate it once per variant
+            leaves = []
+            for v_ in adt_["variants"]:
+                for t_, st_ in (analyze_fn(F, fn, (("var", T.param(1), v_["name"]),)).ret_leaves() or []):
+                    leaves.append((an.simp(t_, st_.facts) if t_.op != "const" else t_, st_))
         got = []
         for t, st in leaves:
             var = None
             for f in st.facts:
                 if f[0] == "var" and f[1] is T.param(1):
                     var = f[2]
+            if t.op != "const":
+                tv_ = an.truth(st.facts, t)
+                if tv_ is not None:
+                    t = T.const("bool", 1 if tv_ else 0)
             got.append((t.args[1] if t.op == "const" else pp(t), var))
         rep.require(sorted(got, key=repr) == sorted(want[self_ty], key=repr), "is-little", self_ty, wh(fn["span"]),
                     "is_little == %r" % (want[self_ty],), "%s::is_little evaluates to %r, expected %r" % (self_ty, got, want[self_ty]))
